@@ -165,7 +165,7 @@ func (propC01) Plan(tier string) (int, int) {
 	if tier == "thorough" {
 		return 250000, 0
 	}
-	return 6000, 0
+	return 12000, 0
 }
 
 func (propC01) Gen(seed uint64, tier string, idx int) any {
@@ -321,7 +321,7 @@ func (propC07) Plan(tier string) (int, int) {
 	if tier == "thorough" {
 		return 250000, 0
 	}
-	return 6000, 0
+	return 16000, 0
 }
 
 func (propC07) Gen(seed uint64, tier string, idx int) any {
@@ -474,7 +474,7 @@ func (propC02) Plan(tier string) (int, int) {
 	if tier == "thorough" {
 		return 250000, 0
 	}
-	return 6000, 0
+	return 20000, 0
 }
 
 func (propC02) Gen(seed uint64, tier string, idx int) any {
